@@ -8,6 +8,7 @@ import (
 	crand "crypto/rand"
 	"crypto/x509"
 	"crypto/x509/pkix"
+	"github.com/WICG/webpackage/go/verifapi"
 	"io/ioutil"
 	"log"
 	"math/big"
@@ -211,6 +212,15 @@ func cloneHeader(h http.Header) http.Header {
 }
 
 func buildSigned(sp *sxSpec, kc *keyCert) *signedEx {
+	r := prepareEx(sp)
+	if r.err != "" {
+		return r
+	}
+	return signEx(r, sp, kc, nil)
+}
+
+// prepareEx: NewExchange + MiEncodePayload (the exchange may then wait while others are prepared, signed, written)
+func prepareEx(sp *sxSpec) *signedEx {
 	reqh := cloneHeader(sp.reqh)
 	if sp.ver == version.Version1b3 {
 		reqh = http.Header{}
@@ -223,6 +233,12 @@ func buildSigned(sp *sxSpec, kc *keyCert) *signedEx {
 			return r
 		}
 	}
+	return r
+}
+
+// signEx: AddSignatureHeader; alg (optional) replaces the signing algorithm (used to hold a signature in flight)
+func signEx(r *signedEx, sp *sxSpec, kc *keyCert, alg verifapi.SigningAlgorithm) *signedEx {
+	e := r.e
 	cu, _ := url.Parse(sp.certURL)
 	vu, _ := url.Parse(sp.vURL)
 	if sp.shared {
@@ -235,6 +251,9 @@ func buildSigned(sp *sxSpec, kc *keyCert) *signedEx {
 		r.signer.CertUrl, r.signer.ValidityUrl, r.signer.PrivKey = cu, vu, kc.key
 	} else {
 		r.signer = &sxg.Signer{Date: time.Unix(sp.date, sp.dateNs), Expires: time.Unix(sp.expires, sp.expNs), Certs: kc.certs, CertUrl: cu, ValidityUrl: vu, PrivKey: kc.key}
+	}
+	if alg != nil {
+		r.signer.Algorithm = alg
 	}
 	if err := e.AddSignatureHeader(r.signer); err != nil {
 		r.err = "sign"
